@@ -4,9 +4,12 @@ import glob, json, os
 V = os.path.dirname(os.path.dirname(os.path.abspath(__file__)))
 checks = []
 claimed = set()
+enabled = set(open(os.path.join(V, "checks", "ENABLED")).read().split())
 for p in sorted(glob.glob(os.path.join(V, "checks", "C*.json"))):
     fr = json.load(open(p))
     cid = fr["property_id"]
+    if cid not in enabled:
+        continue
     claimed.add(cid)
     e = {
         "property_id": cid,
